@@ -1700,7 +1700,9 @@ func (c *DnsController) UpdateDnsCacheTtl(host string, dnsTyp uint16, answers, n
 	return c.__updateDnsCacheDeadline("", host, dnsTyp, answers, ns, extra, func(now time.Time, host string) (daedline time.Time, originalDeadline time.Time) {
 		originalDeadline = now.Add(time.Duration(ttl) * time.Second)
 		if rt := c.runtime(); rt != nil {
-			if fixedTtl, ok := rt.fixedDomainTtl[host]; ok {
+			// DNS names are case-insensitive and the cache key is lower-cased: match the
+			// fixed_domain_ttl table the same way, whatever case the question was asked in.
+			if fixedTtl, ok := rt.fixedDomainTtl[strings.ToLower(host)]; ok {
 				return now.Add(time.Duration(fixedTtl) * time.Second), originalDeadline
 			}
 		}
@@ -1713,7 +1715,9 @@ func (c *DnsController) UpdateDnsCacheTtlWithKey(cacheKey string, host string, d
 	return c.__updateDnsCacheDeadline(cacheKey, host, dnsTyp, answers, ns, extra, func(now time.Time, host string) (deadline time.Time, originalDeadline time.Time) {
 		originalDeadline = now.Add(time.Duration(ttl) * time.Second)
 		if rt := c.runtime(); rt != nil {
-			if fixedTtl, ok := rt.fixedDomainTtl[host]; ok {
+			// DNS names are case-insensitive and the cache key is lower-cased: match the
+			// fixed_domain_ttl table the same way, whatever case the question was asked in.
+			if fixedTtl, ok := rt.fixedDomainTtl[strings.ToLower(host)]; ok {
 				return now.Add(time.Duration(fixedTtl) * time.Second), originalDeadline
 			}
 		}
